@@ -639,6 +639,11 @@ class CompartmentedModel(Process):
 
         :param n: the node'''
 
+        # the node's edges leave the network with it, so they have
+        # to leave any loci they are in as well
+        for (_, m) in list(self.network().edges(n)):
+            self._callRemoveHandlers((n, m))
+
         # remove node from any loci, and from its compartment
         self._callRemoveHandlers(n)
 
